@@ -178,6 +178,9 @@ func sameStrings(a, b []string) bool {
 
 func (e *Exec) compareDataset(path string, ds *model.Dataset, od *ObjDump) {
 	lc := layoutClass(ds)
+	if ds.Regrown {
+		lc = "regrown:" + lc
+	}
 	tc := ds.DT.Class
 	if od.MetaErr != "" || od.InfoErr != "" {
 		e.violate("dataset-meta", "info-error:"+tc+":"+ErrClass(od.MetaErr+od.InfoErr), path+": "+od.MetaErr+od.InfoErr)
@@ -213,7 +216,7 @@ func (e *Exec) compareDataset(path string, ds *model.Dataset, od *ObjDump) {
 			// an error" applies.
 			switch ds.DT.Name {
 			case "Float64", "Float32", "Int32", "Int64":
-				e.violate("dataset-values", "read-error:"+lc+":"+ErrClass(od.F64Err), fmt.Sprintf("%s (%s %v chunk %v): Read failed: %s", path, ds.DT.Name, ds.Dims, ds.Chunk, od.F64Err))
+				e.violate("dataset-values", "read-error:"+readErrLayout(ds)+":"+ErrClass(od.F64Err), fmt.Sprintf("%s (%s %v chunk %v): Read failed: %s", path, ds.DT.Name, ds.Dims, ds.Chunk, od.F64Err))
 			}
 			return
 		}
@@ -237,7 +240,7 @@ func (e *Exec) compareDataset(path string, ds *model.Dataset, od *ObjDump) {
 		if od.StrsErr != "" {
 			e.probe("read-error:String")
 			// ReadStrings is documented to support fixed-length strings.
-			e.violate("dataset-values", "read-error:strings:"+lc+":"+ErrClass(od.StrsErr), path+": ReadStrings failed: "+od.StrsErr)
+			e.violate("dataset-values", "read-error:strings:"+readErrLayout(ds)+":"+ErrClass(od.StrsErr), path+": ReadStrings failed: "+od.StrsErr)
 			return
 		}
 		n := len(ds.Raw) / ds.DT.Size
@@ -482,4 +485,13 @@ func sameBytes(v interface{}, stored []byte) bool {
 		}
 	}
 	return true
+}
+
+// readErrLayout is the layout part of a read-error class: every filtered
+// dataset is one class (the cause is in the pipeline, not in the chunk shape).
+func readErrLayout(ds *model.Dataset) string {
+	if len(ds.Filters) > 0 {
+		return "filtered"
+	}
+	return layoutClass(ds)
 }
